@@ -71,6 +71,7 @@ type qnPlan struct {
 	attackMax  time.Duration
 	clientHold [2]time.Duration // client->server blackout window (token expiry)
 	defaultTO  bool             // use the package's default handshake/idle timeouts
+	chainExtra int              // extra certificates in the server's chain: a first flight of several datagrams
 }
 
 // qnGhost is a client endpoint at a victim address: only its first `pass`
@@ -181,6 +182,11 @@ func qnDrawPlan(rt *rapid.T, focus string) *qnPlan {
 	p := &qnPlan{focus: focus}
 	p.cli, p.srv = qnDrawCfg(c, focus), qnDrawCfg(c, focus)
 	p.retry = vs.Pct(c, 15)
+	if focus == "C27" || vs.Pct(c, 15) {
+		// a realistic certificate chain: the server's first flight then needs more
+		// datagrams than the anti-amplification budget of one client Initial allows
+		p.chainExtra = vs.Pick(c, 0, 2, 5, 12)
+	}
 	p.randSeed = uint64(c.Intn(1 << 30))
 	f := &p.faults
 	f.Seed = uint64(c.Intn(1<<30)) + 1
@@ -983,6 +989,15 @@ func (r *qnRun) config(cfg qnCfg, server bool) *Config {
 	}
 	tc.Rand = &qnRand{s: seed}
 	tc.Time = time.Now
+	if server && r.p.chainExtra > 0 {
+		cert := testCert
+		cert.Certificate = append([][]byte{}, testCert.Certificate...)
+		for i := 0; i < r.p.chainExtra; i++ {
+			cert.Certificate = append(cert.Certificate, testCert.Certificate[0])
+		}
+		tc.Certificates = []tls.Certificate{cert}
+		vs.G.Inc("probe.server_flight_of_several_datagrams")
+	}
 	c := &Config{
 		TLSConfig:                tc,
 		MaxBidiRemoteStreams:     cfg.maxBidi,
